@@ -247,6 +247,31 @@ theorem C10_number_classes_partial (w rest : List Char) (h : WordRun w rest) (x 
       (¬ (IsNumberDoc w ∨ IsNumberRadixUnderscore w) → isBadNumberShape w = false → sym = "BadWord") :=
   bestMatch_digit h x t hw hx
 
+/-- The classification theorems apply to every token of a real tokenization: a token of a
+cover (of the regenerated table) that starts where a maximal word run `w` starts is exactly
+`w`, with the symbol `C10_word_classes` / `C10_number_classes_partial` give for `w`. -/
+theorem C10_word_tokens (ln : Nat) (line : List Char) (segs : List Seg)
+    (h : Covers tokTable.pats ln line 0 segs) (t : Token) (ht : t ∈ tokensOf segs)
+    (w rest : List Char) (hs : line.drop (t.sc - 1) = w ++ rest) (hr : WordRun w rest) :
+    t.text = w ∧
+    ((∀ x u, w = x :: u → isDigit x = false) → t.sym = classifyWord w) ∧
+    (∀ x u, w = x :: u → isDigit x = true →
+      ((IsNumberDoc w ∨ IsNumberRadixUnderscore w) → t.sym = "Number") ∧
+      (¬ (IsNumberDoc w ∨ IsNumberRadixUnderscore w) → isBadNumberShape w = true → t.sym = "BadNumber") ∧
+      (¬ (IsNumberDoc w ∨ IsNumberRadixUnderscore w) → isBadNumberShape w = false → t.sym = "BadWord")) := by
+  obtain ⟨htext, hb⟩ := cover_word_token h ht hs hr
+  refine ⟨htext, ?_, ?_⟩
+  · intro hd
+    have := bestMatch_word hr hd
+    rw [hb] at this
+    simpa using this
+  · intro x u hw hx
+    obtain ⟨sym, hb', h1, h2, h3⟩ := bestMatch_digit hr x u hw hx
+    rw [hb] at hb'
+    have : t.sym = sym := by simpa using hb'
+    rw [this]
+    exact ⟨h1, h2, h3⟩
+
 theorem not_grouped_us (dig : Char → Bool) (hd : dig '_' = false) (a b : Nat) (t : List Char) :
     ¬ Grouped dig a b ('_' :: t) := by
   rintro ⟨g0, gs, hb, h1, _, h3, _⟩
